@@ -68,3 +68,18 @@ package inverted
 //@ lemma be64_order(a []byte, b []byte): lexLess8(a, b) == (be64at(a, 0) < be64at(b, 0))
 //@   property C19 C02
 //@   arith bv
+
+// ---- case folding of the string index (property C02) ----
+
+//@ func (*IndexInvertedString).InsertUpdateDelete$1
+//@   property C02
+//@   ensures result1 == false && err == nil
+//@   ensures result0.Id == change.Id && result0.CurrentData == change.CurrentData && result0.PreviousData == change.PreviousData
+//@   ensures change.CurrentData != nil ==> *change.CurrentData == lower(old(*change.CurrentData))
+//@   ensures change.PreviousData != nil ==> *change.PreviousData == lower(old(*change.PreviousData))
+
+//@ func (*IndexInvertedString).Search
+//@   property C02
+//@   ensures callarg(Search, 1, 3) == options.Operator
+//@   ensures old(inv.params.CaseSensitive) ==> callarg(Search, 1, 1) == options.Value && callarg(Search, 1, 2) == options.EndValue
+//@   ensures !old(inv.params.CaseSensitive) ==> callarg(Search, 1, 1) == lower(options.Value) && callarg(Search, 1, 2) == lower(options.EndValue)
